@@ -33,7 +33,8 @@ func (node *tagForNode) Execute(ctx *ExecutionContext, writer TemplateWriter) (f
 
 	// Is it a loop in a loop?
 	if parentloop != nil {
-		loopInfo.Parentloop = parentloop.(*tagForLoopInformation)
+		// A template may have bound the name forloop to something else ({% set forloop = 1 %})
+		loopInfo.Parentloop, _ = parentloop.(*tagForLoopInformation)
 	}
 
 	// The loop's own record is registered per iteration (below). The object to
